@@ -218,7 +218,8 @@ def run_case(case):
         if load.errors:
             V("never-refused", "connect-refused-during-upgrade:%s" % load.errors[0][1].split(":")[1],
               {"count": len(load.errors), "of": load.n, "first": load.errors[0][1]}, "no refused connect")
-        elif load.bad and kind == "sync":
+        elif load.bad and kind == "sync" and not h.startswith(("quit-", "int-")):
+            # (a quick shutdown may cut the requests its own workers were handling: only graceful histories are judged here)
             V("never-cut", "bad-response-during-upgrade", {"count": len(load.bad), "first": load.bad[0][1:]}, "complete responses")
         return Outcome(vio, True, classes + ["requests:%d" % min(load.n // 100, 9)], key="%s|%s|%s|%s" % (h, bind, kind, case.get("rep", 0)),
                        sample={"case": case, "requests": load.n, "connect_errors": len(load.errors)})
